@@ -23,6 +23,8 @@ type NestedOpt struct {
 	Expired     string // expiry used by sub-expired
 	SingleStep  bool   // the deepest layout has one step only (it consumes x and produces y)
 	Sibling     bool   // the root has a third step "c", delegated by another functionary (ed3) to a sublayout of its own
+	CoThreshold int    // > 0: the root's step b has a second authorised functionary (ed6) who delivers a plain link; threshold of the step
+	ExtraSigner bool   // the level-2 layout carries, in front of the delegate's signature, the signature of a key that is no functionary
 }
 
 type Nested struct {
@@ -114,6 +116,14 @@ func (n *Nested) level(base string, l int, dir string, signer *K, stepNameForSum
 		sb.ExpectedProducts = [][]string{{"DISALLOW", "y"}}
 	}
 	keys := map[string]intoto.Key{fa.ID: fa.Pub, fb.ID: fb.Pub, unl.ID: unl.Pub}
+	if l == 1 && o.CoThreshold > 0 {
+		co := Key("ed6")
+		keys[co.ID] = co.Pub
+		sb.PubKeys = append(sb.PubKeys, co.ID)
+		sb.Threshold = o.CoThreshold
+		// the co-functionary reports what the summary of the sublayout reports
+		DumpLink(dir, "b", co.ID, MustWrap(Link("b", xArt(1), yArt(o.Depth), "make-y-directly"), o.DSSE, co.Full))
+	}
 	if l < o.Depth {
 		deleg := fb
 		if l == 1 {
@@ -186,11 +196,16 @@ func (n *Nested) level(base string, l int, dir string, signer *K, stepNameForSum
 		signKey = Key("ed5")
 	}
 	md := MustWrap(lay, o.DSSE, signKey.Full)
+	if l == 2 && o.ExtraSigner {
+		md = MustWrap(lay, o.DSSE, Key("ed5").Full, signKey.Full)
+	}
 	if defect == "sub-sig-corrupt" {
 		tmp := filepath.Join(base, "tmp-layout.json")
 		md.Dump(tmp)
 		EditJSONFile(tmp, func(doc map[string]any) {
-			s := doc["signatures"].([]any)[0].(map[string]any)
+			// the signature of the key that offers this layout (there may be a foreign signature in front of it)
+			sigs := doc["signatures"].([]any)
+			s := sigs[len(sigs)-1].(map[string]any)
 			sig := s["sig"].(string)
 			b := []byte(sig)
 			// flip one digit in the middle (hex for legacy, base64 for DSSE: both alphabets contain 'A'/'B' resp. 'a'/'b')
